@@ -457,7 +457,20 @@ func runC06(c *Check) {
 	// returns nil also for a chunk the DA layer did not take (cancellation, attempts used up): the
 	// next accepted chunk then moves the watermark over the one that was skipped.
 	{
-		c.Doc("C06-R9", "VP: on the way from the submission loops to the generic submitter the list of items is never re-sliced with a non-zero lower bound (only the submitter advances it, by the DA layer's accepted count): the watermark is set to the height of the last accepted item, so everything before it must have been offered and accepted first.")
+		c.Doc("C06-R9", "VP+EO: on the way from the submission loops to the generic submitter the list of items is never re-sliced with a non-zero lower bound (only the submitter advances it, by the DA layer's accepted count) — unless every nil return of the submitter is behind the test that everything it was given was accepted: the watermark is set to the height of the last accepted item, so everything before it must have been offered and accepted first.")
+		// the submitter's contract: does nil mean "everything was accepted"? Only then may a caller
+		// move on to a later part of the backlog after a nil return.
+		strict := len(subs) > 0
+		for _, sub := range subs {
+			sg := BuildECFG(p, sub, ExpandOpts{MaxDepth: 0})
+			all := sg.Select(EdgeWhere(func(t *Term, pol bool, n *Node) bool {
+				a, op, b, okc := canonCmp(t, pol)
+				return okc && op == "==" && (strings.Contains(a.String(), ".SubmittedCount") || strings.Contains(b.String(), ".SubmittedCount"))
+			}))
+			if len(all) == 0 || sg.PathAvoiding([]*Node{sg.Entry}, sg.SuccessExits(), nodeSet(all)) != nil {
+				strict = false
+			}
+		}
 		n9 := 0
 		for _, loop := range []string{"HeaderSubmissionLoop", "DataSubmissionLoop"} {
 			root := p.MustFunc(mgrM(loop))
@@ -501,7 +514,9 @@ func runC06(c *Check) {
 						return true
 					})
 					inst := loop + " ⟂ items offered from the start of the pending list ⟂ " + fnShort(nd.Ctx.Fn)
-					if cut == nil {
+					if cut != nil && strict {
+						c.OK("C06-R9", inst, fnName(nd.Ctx.Fn), p.InstrPos(nd.In), "the list is cut at its lower end outside the submitter, and every nil return of the submitter is behind the test that the DA layer accepted everything it was given", true)
+					} else if cut == nil {
 						c.OK("C06-R9", inst, fnName(nd.Ctx.Fn), p.InstrPos(nd.In), "the list handed to the submitter is not cut at its lower end: "+trunc(t.String(), 100), true)
 					} else {
 						c.Bad("C06-R9", inst, fnName(nd.Ctx.Fn), p.InstrPos(nd.In), "the list handed to the submitter can be a remainder cut at its lower end outside the submitter ("+trunc(cut.String(), 120)+"): the submitter returns nil also when the DA layer did not take the previous part (cancellation, attempts used up), so a later part can be accepted first and its post-acceptance callback moves the watermark past heights that were never accepted — they are never submitted, also not after a restart", nil)
